@@ -11,7 +11,9 @@ package main
 // observation:  key=value fields separated by '|'; keys of the file-mode run start with "F.", of the
 //               line-mode run with "L.", of the whole-source run of a cut case with "W.":
 //   X.toks  token stream      X.p  parser panicked (0/1)   X.e  number of errors   X.c  continuationNeeded
-//   X.t     canonical dump of the tree                      X.tnc same without statement-level comments (only if different)
+//   X.nn    tree has no missing children (0/1)
+//   X.t     canonical dump of the tree     X.ts same without the layout flags of comments (only if different)
+//   X.tnc   same without flags and without statement-level comments (only if different from X.ts)
 //   X.pn X.pc X.pa X.pca   PrettyPrint in normal / compact / all-parens / compact+all-parens mode: hex, or PANIC
 
 import (
@@ -70,8 +72,12 @@ func newLexer(src string, lineMode bool) *lexer.Lexer {
 	return lexer.New(src)
 }
 
-// lexAll returns every NextToken() result until the lexer position is past the end of the input,
-// followed by the end marker that all later calls return (checked on three further calls).
+// lexAll returns every NextToken() result until the lexer is stuck on its end marker, followed
+// by the end marker that all later calls return (checked on three further calls).  "Stuck" is:
+// the position is past the end of the input (the lexer as shipped: every later call reads the
+// virtual NUL), or a second call returns the marker again without moving (a lexer whose end
+// marker is sticky).  An end marker in the middle (embedded NUL, lexer as shipped) is an ordinary
+// element of the stream.
 func lexAll(src string, lineMode bool) []tokRec {
 	l := newLexer(src, lineMode)
 	var recs []tokRec
@@ -80,25 +86,26 @@ func lexAll(src string, lineMode bool) []tokRec {
 		t := l.NextToken()
 		return tokRec{t.Type(), t.Literal(), pb, l.Pos(), l.HadWhitespace(), l.HadNewline(), l.LastNewLine(), numClass(t)}
 	}
+	isEnd := func(r tokRec) bool { return r.typ == token.EOF || r.typ == token.EOL }
+	var end tokRec
+	r := one()
 	for {
-		r := one()
 		recs = append(recs, r)
-		if r.pa > len(src) {
-			break
-		}
-		if len(recs) > len(src)+8 {
+		if len(recs) > 2*len(src)+8 {
 			panic("harness: lexer does not reach the end of the input")
 		}
+		next := one()
+		if isEnd(r) && isEnd(next) && (r.pa > len(src) || next.pa == r.pa) {
+			end = next
+			break
+		}
+		r = next
 	}
-	end := one()
 	for i := 0; i < 3; i++ {
 		e := one()
 		if e.typ != end.typ || e.lit != end.lit || e.ws || e.nl || e.lastNl != end.lastNl || end.ws || end.nl {
 			panic("harness: lexer end marker is not stable")
 		}
-	}
-	if end.typ != token.EOF && end.typ != token.EOL {
-		panic("harness: lexer past the end returns a non end marker")
 	}
 	return append(recs, end)
 }
@@ -133,8 +140,9 @@ func dumpTk(t *token.Token) string {
 }
 
 type dumper struct {
-	b     strings.Builder
-	noCom bool
+	b       strings.Builder
+	noCom   bool // drop statement-level comments
+	noFlags bool // omit the layout flags of comments
 }
 
 func (d *dumper) list(l []ast.Node, stmts bool) {
@@ -200,7 +208,9 @@ func (d *dumper) node(n ast.Node) {
 		d.open("Ctl", v.Token)
 	case *ast.Comment:
 		d.open("Com", v.Token)
-		d.b.WriteString(" " + b2s(v.SameLineAsPrevious) + b2s(v.SameLineAsNext))
+		if !d.noFlags {
+			d.b.WriteString(" " + b2s(v.SameLineAsPrevious) + b2s(v.SameLineAsNext))
+		}
 	case *ast.ReturnStatement:
 		d.open("Ret", v.Token)
 		d.sub(v.ReturnValue)
@@ -272,8 +282,8 @@ func (d *dumper) node(n ast.Node) {
 	d.b.WriteByte(')')
 }
 
-func dumpProgram(p *ast.Statements, noCom bool) string {
-	d := &dumper{noCom: noCom}
+func dumpProgram(p *ast.Statements, noCom, noFlags bool) string {
+	d := &dumper{noCom: noCom, noFlags: noFlags}
 	d.stmts(p)
 	return d.b.String()
 }
@@ -393,9 +403,13 @@ func observeParse(o *obsWriter, pfx, src string, lineMode, prints bool) parseRes
 	o.kv(pfx+"e", strconv.Itoa(r.errs))
 	o.kv(pfx+"c", b2s(r.cont))
 	o.kv(pfx+"nn", b2s(noNilStmts(r.prog)))
-	t := dumpProgram(r.prog, false)
+	t := dumpProgram(r.prog, false, false)
 	o.kv(pfx+"t", t)
-	if tnc := dumpProgram(r.prog, true); tnc != t {
+	ts := dumpProgram(r.prog, false, true)
+	if ts != t {
+		o.kv(pfx+"ts", ts)
+	}
+	if tnc := dumpProgram(r.prog, true, true); tnc != ts {
 		o.kv(pfx+"tnc", tnc)
 	}
 	if prints {
